@@ -3,9 +3,10 @@
   (`SVD::q_xx = Σ_k V'_ik inv_W_k² V'_jk`, `q_bb = Σ_{k non-null} U_ik U_jk`,
   `q_bx = Σ_k U_ik inv_W_k V'_jk`; `V'` = `V` after `min_subset_x` for a subset regularisation).
 
-  Same setting and the same CERTIFICATE hypothesis `SvdCert` as `Props/C01/Svd.lean`: the
-  factorisation `A = U diag(W) Vᵀ` is assumed here and checked numerically per run on the real
-  code (tools/props/svd_cert.py); the Golub–Reinsch iteration itself is not proved.
+  Same setting as `Props/C01/Svd.lean`: the factors `d = (U, W, V)` are a parameter here and the
+  factorisation enters as `SvdCert`.  `Props/C03/SvdDecompose.lean` restates both theorems for the
+  factors `Svd.decompose` (the model of `SVD::svd()`) RETURNS, where the algebraic part of `SvdCert`
+  is proved (`Svd.decompose_svdCert`) and only `Unambiguous tol W` remains a hypothesis.
   Unit covariance: `N = AᵀA`, and `q_bb` is the hat matrix of the homogenised system.
 -/
 import Gama.Lemmas.Ls.SvdProps
